@@ -254,7 +254,7 @@ def layer3(rep, prog, rule):
 
             key = "%s|tuple" % b.name
             rep.check(kind is not None, rule, key, kind or "", "the reported class has an unreviewed source: " + T.show(c), s["span"])
-    rep.floor(rule, "(FrameId, Class) constructors", n, 5)
+    rep.floor(rule, "(FrameId, Class) constructors", n, 3)
 
 
 def _resolve_upvars(prog, b, t):
@@ -297,6 +297,6 @@ def run(rep, programs):
     n += layer1_tree(rep, prog, "llfree::trees::Tree::steal", rule)
     n += layer1_tree(rep, prog, "llfree::trees::Tree::reserve_or_steal", rule)
     n += layer1_locals(rep, prog, rule)
-    rep.floor(rule, "class-selecting sites behind a policy verdict", n, 8)
+    rep.floor(rule, "class-selecting sites behind a policy verdict", n, 5)
     layer2(rep, prog, rule)
     layer3(rep, prog, rule)
